@@ -260,7 +260,7 @@ impl Prop for C16 {
         400
     }
     fn cases(&self, t: Tier) -> usize {
-        t.pick(20_000, 600_000)
+        t.pick(80_000, 600_000)
     }
     fn generate(&self, t: &mut Tape) -> Case {
         Case { prog: SynGen::new(t, SynCfg::default()).program() }
